@@ -355,6 +355,7 @@ let register_all register =
   register "histC08" (s_hist Judge.judge_c08);
   register "histC09" (s_hist Judge.judge_c09);
   register "histC10" (s_hist Judge.judge_c10);
+  register "histC11" (s_hist Judge.judge_c01);
   register "phy" s_phy;
   register "phyenc" s_phyenc;
   register "maccmd" s_maccmd;
